@@ -51,15 +51,15 @@ def x0L : (Nat → Rat) →ₗ[ℚ] ℚ := LinearMap.proj 0
 
 def vecQ (v : Vec) : Nat → Rat := fun i => ((v.getD i 0 : Int) : Rat)
 
-theorem evalRow_zero_fun : ∀ (e : Vec), evalRow e (fun _ => 0) = 0
+theorem evalRow_zero_funM : ∀ (e : Vec), evalRow e (fun _ => 0) = 0
   | [] => rfl
-  | a :: as => by simp [evalRow, evalRow_zero_fun as]
+  | a :: as => by simp [evalRow, evalRow_zero_funM as]
 
 theorem evalRow_vecQ : ∀ (e v : Vec), evalRow e (vecQ v) = ((sp e v : Int) : Rat)
   | [], v => by simp [evalRow, sp]
   | a :: as, [] => by
     have h : vecQ [] = fun _ => 0 := by funext i; simp [vecQ]
-    rw [h, evalRow_zero_fun]; simp [sp]
+    rw [h, evalRow_zero_funM]; simp [sp]
   | a :: as, b :: bs => by
     have h : (fun i => vecQ (b :: bs) (i + 1)) = vecQ bs := by funext i; simp [vecQ]
     simp only [evalRow, h, evalRow_vecQ as bs, sp]
@@ -103,7 +103,7 @@ theorem holds_smul_iff {c : CRow} {k : Rat} (hk : 0 < k) {u : Nat → Rat} :
 /-- the point of the slice below a vector with positive first coordinate -/
 def ptOf (v : Nat → Rat) : Pt := fun i => v (i + 1) / v 0
 
-theorem evalRow_congr (e : Vec) (m : Nat) (h : e.length ≤ m) (u v : Nat → Rat)
+theorem evalRow_congrM (e : Vec) (m : Nat) (h : e.length ≤ m) (u v : Nat → Rat)
     (huv : ∀ i, i < m → u i = v i) : evalRow e u = evalRow e v := by
   rw [evalRow_eq_sum e u m h, evalRow_eq_sum e v m h]
   apply Finset.sum_congr rfl
@@ -112,7 +112,7 @@ theorem evalRow_congr (e : Vec) (m : Nat) (h : e.length ≤ m) (u v : Nat → Ra
 
 theorem evalRow_hom_ptOf (n : Nat) (e : Vec) (h : e.length ≤ n + 1) (v : Nat → Rat) (hv : 0 < v 0) :
     evalRow e (hom n (ptOf v) 0) = evalRow e ((v 0)⁻¹ • v) := by
-  apply evalRow_congr e (n + 1) h
+  apply evalRow_congrM e (n + 1) h
   intro i hi
   by_cases h0 : i = 0
   · subst h0
